@@ -18,16 +18,20 @@ for sid in seeds:
     if not os.path.exists(mp):
         continue
     meta = json.load(open(mp))
-    if "official" in meta and not sys.argv[1:]:
+    if "official" in meta and "error" not in meta["official"] and not sys.argv[1:]:
         continue
     det = [k for k, v in meta.get("detected_by", {}).items() if v.get("violations", 0) > 0]
     own = meta["property"]
     OVERRIDE = {"C13-8": ["C14"], "C07-8": ["C20"], "C03-3": ["C09"], "C01-4": ["C14"], "C11-5": ["C14"], "C07-4": ["C11"], "C06-3": ["C07"],
-                "C05-8": ["C03"], "C01-7": ["C03"], "C01-8": ["C09"], "C09-8": ["C03"], "C14-2": ["C14"], "C06-1": ["C06"]}
+                "C05-8": ["C03"], "C01-7": ["C03"], "C01-8": ["C09"], "C09-8": ["C03"], "C14-2": ["C14"], "C06-1": ["C06"],
+                "C13-10": ["C14"], "C07-9": ["C06"], "C05-9": ["C14"], "C05-10": ["C15"], "C12-9": ["C20"], "C13-9": ["C12"], "C14-9": ["C10"],
+                "C10-9": ["C14"], "C11-9": ["C14"], "C01-11": ["C13"], "C01-12": ["C03"], "C04-11": ["C03"], "C04-12": ["C06"], "C05-11": ["C17"],
+                "C05-12": ["C11"], "C07-12": ["C01"], "C09-12": ["C07"], "C10-11": ["C14"], "C13-12": ["C10"], "C14-11": ["C20"], "C14-12": ["C20"],
+                "C03-12": ["C18"]}
     # the property's own check first; if it stays silent, the other checks known to see this change
     checks = [own] + [c for c in OVERRIDE.get(sid, det) if c != own]
     assert sh("git -C /repo diff --quiet").returncode == 0, "/repo dirty"
-    r = sh(f"git -C /repo apply {d}/patch.diff")
+    r = sh(f"git -C /repo apply /verif/{d}/patch.diff")
     if r.returncode != 0:
         meta["official"] = {"error": "patch does not apply: " + r.stderr[-200:]}
         json.dump(meta, open(mp, "w"), indent=1)
